@@ -163,7 +163,8 @@ def job(pl, tier, seed, g, extra_docs=None):
         return 'sys', g, G.systematic_history(v, G.MODES[m], rot), v
     g2 = g - pl['n_sys']
     if g2 < pl['n_pairs']:
-        return pl['pairs'][g2][0], g2, pl['pairs'][g2][1], None
+        h = pl['pairs'][g2][1]
+        return pl['pairs'][g2][0], g2, (h() if callable(h) else h), None
     g3 = g2 - pl['n_pairs']
     if g3 < pl['n_rand']:
         return 'rand', g3, G.random_history(G.history_rng(seed, 'rand', g3), tier, False, extra_docs), None
